@@ -168,6 +168,32 @@ pub fn run(ctx: &Ctx) -> Report {
     let _ = AtomicU64::new(0);
     pool_scenarios(&mut rep, &mut rng, ctx.n(150, 3000));
     rw_lock(&mut rep, &mut rng, ctx.n(25, 400));
-    vectors(&mut rep, &mut rng, ctx.n(15, 300));
+    // the vector scenarios write through raw pointers: memory corruption there kills the process, so they run in a
+    // child; a child that dies IS the failing history (seed and round count in the replay)
+    let (vseed, vn) = (rng.next(), ctx.n(15, 300));
+    match std::process::Command::new(std::env::current_exe().unwrap()).arg("c19vec").arg(vseed.to_string()).arg(vn.to_string()).output() {
+        Err(e) => rep.violate("correspondence", "c19-child-spawn", format!("cannot spawn the vector child: {e}"), json!({})),
+        Ok(o) => {
+            if !o.status.success() {
+                rep.violate("property", "c19-vector-process-died", format!("the process running concurrent pushes / ranged writes on ConcurrentVec and ParallelVecWriter died ({:?}): memory was corrupted or a write went to a freed buffer", o.status), json!({"child": format!("vharness c19vec {vseed} {vn}")}));
+            } else {
+                let v: serde_json::Value = serde_json::from_slice(&o.stdout).unwrap_or(json!({}));
+                rep.evaluations += v["evaluations"].as_u64().unwrap_or(0);
+                for i in 0..v["evaluations"].as_u64().unwrap_or(0) { rep.note_nontrivial(&("vec", vseed, i)); }
+                for x in v["violations"].as_array().cloned().unwrap_or_default() { rep.violate("property", x["signature"].as_str().unwrap_or("c19-parallel-writer"), x["what"].as_str().unwrap_or("").to_string(), x["replay"].clone()); }
+            }
+        }
+    }
     rep
+}
+
+/// child entry point: `vharness c19vec <seed> <rounds>`
+pub fn vec_child_main(args: &[String]) {
+    let seed: u64 = args.first().and_then(|x| x.parse().ok()).unwrap_or(1);
+    let n: usize = args.get(1).and_then(|x| x.parse().ok()).unwrap_or(10);
+    let mut rep = Report::new("C19", "vector child");
+    let mut rng = Rng::new(seed);
+    vectors(&mut rep, &mut rng, n);
+    let j = rep.to_json();
+    println!("{}", json!({"evaluations": rep.evaluations, "violations": j["violations"]}));
 }
